@@ -1,5 +1,6 @@
 import GixModel.Lemmas.C14Graph
 import GixModel.Lemmas.C14Access
+import GixModel.Lemmas.C14Congr
 /-
 C14 — Commit-graph data agrees with the commits it describes.  PROPERTY THEOREMS ONLY.
 
@@ -279,6 +280,75 @@ theorem graph_accessors_total (datas : List Bytes) (files : List File)
           · simp only [Graph.idAt, hfiles, h1, Option.bind_eq_bind, Option.bind_some, h2, hid]
             exact ⟨_, rfl⟩
 
+/-! ### byte level: the file git writes, parsed by `File::new` -/
+
+/-- what git needs to write the file of a layer: the hashes of its base graphs (at most 255, the
+header has one byte for the count), the 20-byte trailing checksum, a file below 2^64 bytes -/
+structure Writable (l : SLayer) (bases : List Bytes) (trailer : Bytes) : Prop where
+  layer : LayerOk l
+  bases20 : ∀ b ∈ bases, b.length = 20
+  baseCount : bases.length < 256
+  trailer20 : trailer.length = 20
+  size : (sWriteGraph l bases trailer).length < 18446744073709551616
+
+/-- Byte-level round trip: the complete file git writes for a layer — header, table of contents,
+OIDF / OIDL / CDAT / optional EDGE / optional BASE chunks, trailer — is accepted by `File::new`
+(table of contents parsed, every chunk validated) and the chunks it hands to the accessors are
+exactly the layer's tables. -/
+theorem file_bytes_roundtrip (l : SLayer) (bases : List Bytes) (trailer : Bytes) (h : Writable l bases trailer) :
+    ∃ f, File.new (sWriteGraph l bases trailer) = some (.ok f) ∧ SameTables f (sFile l bases.length) := by
+  obtain ⟨f, h1, h2, h3, h4, h5⟩ := File.new_sWriteGraph l h.layer bases h.bases20 h.baseCount trailer h.trailer20 h.size
+  exact ⟨f, h1, h2, h3, h4, h5⟩
+
+/-- a chain of opened files, each parsed from the bytes git wrote for the corresponding layer -/
+inductive WrittenChain : List File → List SLayer → Prop
+  | nil : WrittenChain [] []
+  | cons {f : File} {l : SLayer} {fs : List File} {ls : List SLayer} (bases : List Bytes) (trailer : Bytes) :
+      Writable l bases trailer → File.new (sWriteGraph l bases trailer) = some (.ok f) →
+      WrittenChain fs ls → WrittenChain (f :: fs) (l :: ls)
+
+theorem WrittenChain.allSame : ∀ {files : List File} {layers : List SLayer}, WrittenChain files layers →
+    ∀ b, AllSame files ((sChainFrom layers b).map (·.1)) := by
+  intro files layers h
+  induction h with
+  | nil => intro _; exact AllSame.nil
+  | cons bases trailer hw hnew _ ih =>
+    intro b
+    obtain ⟨f', h1, h2⟩ := file_bytes_roundtrip _ bases trailer hw
+    rw [hnew] at h1; injection h1 with h1; injection h1 with h1
+    subst h1
+    exact AllSame.cons h2 (ih (b + 1))
+
+/-- The property from the bytes up: for ANY chain of layers, open the files git writes for them
+(byte strings) with `File::new`; then every commit of every layer is found by its id and by its
+graph position, and root tree, committer time, generation and all parents (as graph positions,
+across file boundaries) are what git wrote. -/
+theorem graph_bytes_commit_eq (layers : List SLayer) (files : List File) (hw : WrittenChain files layers)
+    (hdisj : ∀ j k (hjk : j < k) (hk : k < layers.length), ∀ id ∈ layers[k].ids, id ∉ (layers[j]'(by omega)).ids)
+    (k : Nat) (hk : k < layers.length) (i : Nat) (hi : i < layers[k].commits.length) :
+    let g : Graph := { files := files }
+    let gp := startOf (sChainFrom layers 0) k + i
+    ∃ (hi' : i < layers[k].ids.length),
+      g.commitById layers[k].ids[i] = some (some (gp, seenOf layers[k].commits[i])) ∧
+      g.commitAt gp = some (seenOf layers[k].commits[i]) ∧
+      g.idAt gp = some layers[k].ids[i] := by
+  intro g gp
+  have hok : ∀ l ∈ layers, LayerOk l := by
+    clear hdisj hk hi
+    induction hw with
+    | nil => intro l hl; simp at hl
+    | cons bases trailer hwr _ _ ih =>
+      intro l hl
+      rcases List.mem_cons.mp hl with rfl | hl
+      · exact hwr.layer
+      · exact ih l hl
+  obtain ⟨hi', h1, h2, h3⟩ := graph_commit_eq layers hok hdisj k hk i hi
+  have hsame := hw.allSame 0
+  refine ⟨hi', ?_, ?_, ?_⟩
+  · rw [← h1]; exact Graph.commitById_congr _ _ hsame _
+  · rw [← h2]; exact Graph.commitAt_congr _ _ hsame _
+  · rw [← h3]; exact Graph.idAt_congr _ _ hsame _
+
 -- non-vacuity: a chain of two files; the commit in the second file is an octopus over commits of
 -- both files (graph positions 0, 2, 1, 3 — position 3 is the first commit of the second file)
 def exBase : SLayer :=
@@ -305,5 +375,13 @@ example : (Graph.commitById ⟨(sChainFrom [exBase, exTop] 0).map (·.1)⟩
       [0x80,0,0,0,0,0,0,0,0,0,0,0,0,0,0,0,0,0,0,4]) =
     some (some (4, ⟨List.replicate 20 5, 4, 8589934593, [0, 2, 1, 3], none⟩)) := by decide +kernel
 example : (Graph.commitAt ⟨(sChainFrom [exBase, exTop] 0).map (·.1)⟩ 5) = none := by decide +kernel
+
+-- non-vacuity of the byte level: the written file of `exTop` (one base graph) has 5 chunks, parses, and
+-- the octopus comes back from the bytes
+example : (sWriteGraph exTop [List.replicate 20 1] (List.replicate 20 9)).length = 8 + 6 * 12 + 1024 + 40 + 72 + 12 + 20 + 20 := by
+  decide +kernel
+example : (File.new (sWriteGraph exTop [List.replicate 20 1] (List.replicate 20 9))).map
+    (fun r => match r with | .ok f => (f.baseGraphCount, f.seen 1) | .error _ => (99, none)) =
+    some (1, some ⟨List.replicate 20 5, 4, 8589934593, [0, 2, 1, 3], none⟩) := by decide +kernel
 
 end GixModel.Props.C14
